@@ -209,7 +209,7 @@ func (e *OpEngine) RunProgram(p *Program, st *WalkStats) {
 				continue
 			}
 			got := e.W.InfoOf(gt).Elem
-			if got.Key() != want[i].Key() {
+			if !e.sameExpr(got, want[i], dims) {
 				verdict, wit := e.numericCompare(got, want[i], dims)
 				if verdict == 1 {
 					e.Findings = append(e.Findings, Finding{Rule: "C01.total", Construct: key, What: "value", Pos: e.P.FuncPos(bp),
@@ -220,6 +220,83 @@ func (e *OpEngine) RunProgram(p *Program, st *WalkStats) {
 				}
 			}
 			_ = gs
+		}
+		// gradients on tracked INTERMEDIATES (single-root programs): the property speaks of every tracked tensor
+		// of the graph.  Reference: reverse accumulation over the program text with the textbook local
+		// derivatives, on the forward element expressions.
+		if len(roots) == 1 {
+			F := make([]sym.Expr, len(vals))
+			for i := range vals {
+				F[i] = e.W.InfoOf(vals[i]).Elem
+			}
+			G := make([]sym.Expr, len(vals))
+			if reach[roots[0]] {
+				G[roots[0]] = sym.NumI(1)
+			}
+			okRef := true
+			for i := len(vals) - 1; i >= nl; i-- {
+				if !reach[i] || G[i].IsZero() {
+					continue
+				}
+				s := p.Steps[i-nl]
+				addTo := func(j int, x sym.Expr) {
+					if reach[j] {
+						G[j] = sym.Add(G[j], x)
+					}
+				}
+				switch s.Op {
+				case "Scale":
+					addTo(s.A, sym.Mul(G[i], sym.SymE(fmt.Sprintf("k%d", i-nl))))
+				case "Exp":
+					addTo(s.A, sym.Mul(G[i], F[i]))
+				case "Tanh":
+					addTo(s.A, sym.Mul(G[i], sym.PowInt(sym.FnE("cosh", F[s.A]), -2)))
+				case "Sin":
+					addTo(s.A, sym.Mul(G[i], sym.FnE("cos", F[s.A])))
+				case "ReshapeSame", "Flatten0", "ElMaxSelf":
+					addTo(s.A, G[i])
+				case "Add":
+					addTo(s.A, G[i])
+					addTo(s.B, G[i])
+				case "Sub":
+					addTo(s.A, G[i])
+					addTo(s.B, sym.Neg(G[i]))
+				case "Mul":
+					addTo(s.A, sym.Mul(G[i], F[s.B]))
+					addTo(s.B, sym.Mul(G[i], F[s.A]))
+				default:
+					okRef = false
+				}
+			}
+			for i := nl; okRef && i < len(vals); i++ {
+				gs, ok := e.readGctx(vals[i])
+				if !ok || !gs.known || !gs.tracked || !reach[i] {
+					continue
+				}
+				st.GradChecks++
+				e.did("C01.total", key)
+				g, _ := e.W.GctxOf(vals[i])
+				gt, ok := e.W.AsTensor(interp.Load(g.C.Fields[e.A.GGradient]))
+				if !ok {
+					e.find("C01.total", key, "missing-gradient-intermediate", e.P.FuncPos(bp), fmt.Sprintf("tracked intermediate v%d on the path from the root has no gradient after back-propagation in program %s", i, p.String()))
+					continue
+				}
+				if !e.sameDims(e.W.Dims(gt), dims) {
+					e.find("C01.total", key, "shape", e.P.FuncPos(bp), fmt.Sprintf("gradient of intermediate v%d has shape %s, expected %s in program %s", i, polys(e.W.Dims(gt)), polys(dims), p.String()))
+					continue
+				}
+				got := e.W.InfoOf(gt).Elem
+				if !e.sameExpr(got, G[i], dims) {
+					verdict, wit := e.numericCompare(got, G[i], dims)
+					if verdict == 1 {
+						e.Findings = append(e.Findings, Finding{Rule: "C01.total", Construct: key, What: "value-intermediate", Pos: e.P.FuncPos(bp),
+							Detail:  fmt.Sprintf("intermediate v%d ends with gradient %s but the derivative of the root with respect to it is %s in program %s", i, clip(got.String()), clip(G[i].String()), p.String()),
+							Witness: wit})
+					} else {
+						e.undecided("C01.total", key, "value-intermediate", e.P.FuncPos(bp), fmt.Sprintf("normal forms differ, no separating point: got %s want %s for v%d in %s", clip(got.String()), clip(G[i].String()), i, p.String()))
+					}
+				}
+			}
 		}
 		// C08 clauses 4/5: exactly the tracked ancestors (and the root) are spent and carry a gradient
 		for i := range vals {
